@@ -121,8 +121,101 @@ def _geometry(ctx, rep):
            'only %s is redrawn: after resume a visible page that is not the active page stays blank' % [norm(c.func.value) for c in rs], ctx.where(rb))
 
 
+def _scroll_bookkeeping(ctx, rep):
+    """A scroll keeps three representations of the page in step: the character rows (a Python list edited by one
+    insert and one delete), the text sent to the display (_dbcs_text, edited by slice assignment) and the pixels.
+    List edits shift indices, so the order of insert and delete decides which row is dropped: the edits are
+    replayed symbolically (indices in linear normal form, from_row <= to_row) and must drop the row that leaves
+    the region and put the blank row where the other two representations put it."""
+    from ..algebra import lin
+
+    def L(text):
+        return lin(ast.parse(text, mode='eval').body)
+
+    def plus(l, k):
+        d = dict(l)
+        d[''] = d.get('', 0) + k
+        if d[''] == 0:
+            del d['']
+        return d
+    for name, blank_row, dropped_row in (('scroll_up', 'to_row', 'from_row'), ('scroll_down', 'from_row', 'to_row')):
+        fn = ctx.fn(BUF + ':VideoBuffer.' + name)
+        ops = []
+        for st in fn.body:
+            if isinstance(st, ast.Expr) and isinstance(st.value, ast.Call) and norm(st.value.func) == 'self._rows.insert' and len(st.value.args) == 2:
+                ops.append(('ins', lin(st.value.args[0])))
+            elif isinstance(st, ast.Delete) and len(st.targets) == 1 and isinstance(st.targets[0], ast.Subscript) and norm(st.targets[0].value) == 'self._rows':
+                ops.append(('del', lin(st.targets[0].slice)))
+        ok = sorted(o for o, _ in ops) == ['del', 'ins']
+        detail = repr([o for o, _ in ops])
+        if ok:
+            # positions are 0-based list indices of *original* rows; original row r sits at index r-1
+            (o1, i1), (o2, i2) = ops
+            want_blank = L(blank_row + ' - 1')
+            want_drop = L(dropped_row + ' - 1')
+            if name == 'scroll_up':
+                # insert index is above the delete index (from_row <= to_row)
+                if o1 == 'ins':
+                    blank, drop = plus(i1, -1), i2            # later delete below the insert point shifts the blank up by one
+                else:
+                    drop, blank = i1, i2                      # delete first: the insert index is already final ...
+                    blank = i2                                # ... in the shortened list
+            else:
+                if o1 == 'ins':
+                    blank, drop = i1, plus(i2, -1)            # the insert above moved the row to be dropped down by one
+                else:
+                    drop, blank = i1, i2
+            ok = blank == want_blank and drop == want_drop
+            detail = 'the blank row ends at list index %s (want %s), the row dropped is index %s (want %s)' % (blank, want_blank, drop, want_drop)
+        rep.ob('scroll.row-list-edit', 'VideoBuffer.%s: the character rows drop row %s and get the blank row at %s' % (name, dropped_row, blank_row), ok, detail, ctx.where(fn))
+        db = [a for a in fn.body if isinstance(a, ast.Assign) and isinstance(a.targets[0], ast.Subscript) and norm(a.targets[0].value) == 'self._dbcs_text'
+              and not isinstance(a.targets[0].slice, ast.Slice)]
+        rep.ob('scroll.display-text-blank-row', 'VideoBuffer.%s: the text sent to the display gets its blank row at %s' % (name, blank_row),
+               len(db) == 1 and lin(db[0].targets[0].slice) == L(blank_row + ' - 1'), '', ctx.where(fn))
+        fills = [a for a in fn.body if isinstance(a, ast.Assign) and norm(a.value) == 'back' and norm(a.targets[0]).startswith('self._pixels[')]
+        area = [a for a in fn.body if isinstance(a, ast.Assign) and isinstance(a.value, ast.Call) and norm(a.value.func) == 'self.text_to_pixel_area'
+                and norm(a.targets[0]) == '(x0, y0, x1, y1)']
+        rep.ob('scroll.pixel-blank-row', 'VideoBuffer.%s: the pixel rows of text row %s are filled with the background' % (name, blank_row),
+               len(fills) == 1 and len(area) == 1 and [norm(x) for x in area[0].value.args[:3:2]] == [blank_row, blank_row], '', ctx.where(fn))
+    # inclusive pixel bounds: text_to_pixel_area returns inclusive maxima; Python slices and ByteMatrix.move take
+    # exclusive ends, so every use of a maximum as an end is `+ 1`
+    n_ends = 0
+    cls = ctx.cls(BUF + ':VideoBuffer')
+    for m in class_methods(cls).values():
+        maxima = set()
+        for a in own_nodes(m):
+            if isinstance(a, ast.Assign) and isinstance(a.value, ast.Call) and norm(a.value.func) == 'self.text_to_pixel_area' and isinstance(a.targets[0], ast.Tuple) \
+                    and len(a.targets[0].elts) == 4:
+                maxima |= set(norm(e) for e in a.targets[0].elts[2:])
+        if not maxima:
+            continue
+        for x in own_nodes(m):
+            ends = []
+            if isinstance(x, ast.Slice) and x.upper is not None:
+                ends.append(x.upper)
+            if isinstance(x, ast.Call) and isinstance(x.func, ast.Attribute) and x.func.attr == 'move' and len(x.args) >= 4:
+                ends += [x.args[1], x.args[3]]
+            for e in ends:
+                used = [n_ for n_ in ast.walk(e) if isinstance(n_, ast.Name) and n_.id in maxima]
+                if used:
+                    n_ends += 1
+                    l = lin(e)
+                    rep.ob('pixels.inclusive-maximum-plus-one', '%s: %s as an exclusive end' % (m.name, norm(e)), l.get('', 0) == 1 and l.get(used[0].id) == 1,
+                           'an inclusive maximum is used as an exclusive end without + 1: the last scan line / column of the area is left out', ctx.where(e))
+    rep.floor('pixels.inclusive-maximum-plus-one', n_ends, 8, 'uses of an inclusive maximum as an end')
+    # the page becomes visible *before* it is resubmitted: _submit sends nothing for an invisible page
+    sv = ctx.fn(BUF + ':VideoBuffer.set_visible')
+    setf = [a for a in own_nodes(sv) if isinstance(a, ast.Assign) and norm(a.targets[0]) == 'self._visible']
+    rs = [c for c in own_nodes(sv) if isinstance(c, ast.Call) and norm(c.func) == 'self.resubmit']
+    sb = ctx.fn(BUF + ':VideoBuffer._submit')
+    gated = any(isinstance(n_, ast.If) and norm(n_.test) == 'self._visible' for n_ in sb.body)
+    rep.ob('visible.flag-before-resubmit', 'set_visible raises the flag before resubmitting (the submit path is gated on the flag)',
+           len(setf) == 1 and len(rs) == 1 and setf[0].lineno < rs[0].lineno and gated, '', ctx.where(sv))
+
+
 def check(ctx, rep):
     _geometry(ctx, rep)
+    _scroll_bookkeeping(ctx, rep)
     vp = ctx.cls(VID + ':VideoPlugin')
     init = class_methods(vp)['__init__']
     handlers = {}
@@ -237,6 +330,12 @@ def variants(ctx):
         return lambda tree: f(mu.find_def(tree, f_name))
 
     return [
+        Va('scroll-down-drops-row-above', 'break', BUF,
+           lambda tree: mu.replace_stmt(mu.find_def(tree, 'VideoBuffer.scroll_down'), mu.text_is('del self._rows[to_row]'), 'del self._rows[to_row - 1]'), expect='scroll.row-list-edit'),
+        Va('scroll-up-deletes-before-insert', 'break', BUF, lambda tree: _del_first(mu.find_def(tree, 'VideoBuffer.scroll_up')), expect='scroll.row-list-edit'),
+        Va('scroll-move-without-last-scanline', 'break', BUF,
+           lambda tree: mu.replace_expr(mu.find_def(tree, 'VideoBuffer.scroll_up'), mu.text_is('self._pixels.move(sy0, sy1 + 1, sx0, sx1 + 1, ty0, tx0)'), 'self._pixels.move(sy0, sy1, sx0, sx1 + 1, ty0, tx0)'), expect='pixels.inclusive'),
+        Va('resubmit-before-visible', 'break', BUF, lambda tree: _resubmit_first(mu.find_def(tree, 'VideoBuffer.set_visible')), expect='visible.flag'),
         Va('text-area-row-from-font-width', 'break', BUF,
            lambda tree: mu.replace_expr(mu.find_def(tree, 'VideoBuffer.pixel_to_text_area'), mu.text_is('1 + y0 // self._font.height'), '1 + y0 // self._font.width'), expect='geometry.axis'),
         Va('rebuild-active-page-only', 'break', 'pcbasic/basic/display/display.py',
@@ -264,3 +363,20 @@ def variants(ctx):
                                                                       'self._queues.video.put(signals.Event(signals.VIDEO_CLEAR_ROWS, (back, start, stop)))')), expect='visible'),
         Va('neutral', 'neutral', BUF, in_fn('VideoBuffer.scroll_up', lambda fn: mu.rename_local(fn, 'new_row', 'blank'))),
     ]
+
+
+def _del_first(fn):
+    ins = [s for s in fn.body if isinstance(s, ast.Expr) and 'self._rows.insert' in norm(s)]
+    dl = [s for s in fn.body if isinstance(s, ast.Delete)]
+    if len(ins) != 1 or len(dl) != 1:
+        return False
+    fn.body.remove(ins[0])
+    fn.body.insert(fn.body.index(dl[0]) + 1, ins[0])
+    return True
+
+
+def _resubmit_first(fn):
+    new = ast.parse("if visible and not self._visible:\n    self.resubmit()\nself._visible = visible").body
+    keep = [s for s in fn.body if isinstance(s, ast.Expr) and isinstance(s.value, ast.Constant)]
+    fn.body[:] = keep + new
+    return True
